@@ -77,7 +77,7 @@ def render(line):
 
 
 # ---------------------------------------------------------------- text -> structured line
-_KW = ('byte', 'word', 'dword', 'qword', 'tbyte', 'xmmword', 'xword', 'single', 'double')
+_KW = ('byte', 'word', 'dword', 'fword', 'qword', 'tbyte', 'xmmword', 'xword', 'single', 'double')
 _NUM = re.compile(r'(0[xX][0-9a-fA-F]+|\d+)$')
 _REGS = set('al cl dl bl ah ch dh bh ax cx dx bx sp bp si di eax ecx edx ebx esp ebp esi edi es cs ss ds fs gs st'.split()
             + ['%s%d' % (p, i) for p in ('cr', 'dr', 'mm', 'xmm') for i in range(8)] + ['st(%d)' % i for i in range(8)])
